@@ -6,22 +6,31 @@ from decimal import Decimal
 
 import numpy as np
 
-from ..common import SRC, Ctx, Tokens, close, driver_batch, f2b, fmat, fvec
+from ..common import SRC, Ctx, Tokens, close, driver_batch, f2b, fmat, fvec, vec
 
 LEVEL = "proof"
 LEVEL_TEXT = (
-    "Lean theorems over the reals, for every exponent alpha > 0 and every radius, about the closed forms regenerated "
+    "Lean theorems over the reals, for every exponent alpha > 0 and every radius, about definitions regenerated "
     "(AST -> Lean, statement by statement) from coulomb.py on every run; erf is its integral definition. s-type: "
     "(r V)'' = -4 pi r rho_s above the small-r switch, r V -> 1 = total charge, the branch value is the r->0 limit with the "
     "quantitative bound |erf(sqrt(a) r)/r - 2 sqrt(a/pi)| <= 2/(3 sqrt(pi)) a^{3/2} r^2 (jump across the switch), the closed form "
     "equals the Coulomb integral (1/r) int_0^r 4 pi s^2 rho + int_r^inf 4 pi s rho, unnormalised factor. p-type: the same set of "
     "theorems for a hand-written corrected formula (p_correct*), and for the code as it is the negation at concrete witnesses "
-    "(p_code_ne_correct, p_code_fails_poisson) -- known finding. Multi-centre model = weighted sum (all lists, both modes); "
-    "parameter table facts (equal lengths, positive exponents, loading by symbol and number for all 118 elements) decided by "
-    "the kernel on the regenerated table. Hand-written parts (multi-centre loop, loader, corrected p formula) are tied by "
-    "correspondence; every generated definition is also evaluated at Float and compared with the function it came from."
+    "(p_code_ne_correct, p_code_fails_poisson) -- known finding. coulomb_potential is GENERATED too (shape guards, all-or-none "
+    "p arguments, the two zip loops, which closed form with which `normalized`, V += c*...): on arrays with explicit shapes it is "
+    "proved to raise ValueError for every malformed shape class and for partial p arguments, and otherwise to be rejected iff "
+    "some exponent <= 0 and else equal to the coefficient-weighted sum of the generated closed forms (multi_centre_is_sum_gen, "
+    "via a proved bridge to the hand model; total characterisation multi_centre_total). load_atomic_gaussian_params is GENERATED "
+    "as a state-passing computation over the module-level cache (isinstance branches, .strip().title(), sym2num / num2sym.get, "
+    "try/except around the file read and the KeyError, which JSON key goes to which returned component): proved equal to the "
+    "hand model for every argument object, element table, file content and cache state (loader_gen_eq_model); unknown "
+    "symbols/numbers -> ValueError, non-str/non-int -> TypeError, result independent of the cache state, cache = file after "
+    "every call that passes the argument checks; the facts about the shipped table (equal lengths, positive exponents, loading "
+    "by symbol and number for all 118 elements) are decided by the kernel on the generated loader and the regenerated table. "
+    "Hand-written: the NumPy/Python primitives (Model/CoulombPy.lean), the corrected p formula, the documented densities; "
+    "tied by correspondence; every generated definition is also run at Float by the driver and compared with the function it came from."
 )
-TECHNIQUE = "Lean 4 + Mathlib proof about AST-regenerated closed forms (FTC, Gaussian integral) + differential correspondence + mpmath Coulomb-integral oracle"
+TECHNIQUE = "Lean 4 + Mathlib proof about AST-regenerated closed forms, multi-centre routine and loader (FTC, Gaussian integral, monadic do-block semantics) + differential correspondence + mpmath Coulomb-integral oracle"
 GEN = ["coulomb"]
 LEAN_MODULES = ["GridVerif.Props.C17"]
 THEOREMS = [
@@ -45,36 +54,62 @@ THEOREMS = [
     "GridVerif.C17.p_code_consistent",
     "GridVerif.C17.p_unnormalised_factor",
     "GridVerif.C17.multi_centre_is_sum",
+    "GridVerif.C17.potential_gen_eq_model",
+    "GridVerif.C17.multi_centre_is_sum_gen",
+    "GridVerif.C17.multi_centre_s_only",
+    "GridVerif.C17.shape_guards_reject",
+    "GridVerif.C17.partial_p_rejected",
+    "GridVerif.C17.multi_centre_total",
+    "GridVerif.C17.multi_centre_never_unmodelled",
     "GridVerif.C17.table_ok",
     "GridVerif.C17.alphas_positive",
+    "GridVerif.C17.loader_gen_eq_model",
     "GridVerif.C17.load_every_element",
     "GridVerif.C17.load_normalises",
     "GridVerif.C17.load_unknown_rejected",
+    "GridVerif.C17.load_type_error",
+    "GridVerif.C17.load_cache_independent",
+    "GridVerif.C17.load_unreadable_file",
+    "GridVerif.C17.model_load_every_element",
+    "GridVerif.C17.model_load_normalises",
+    "GridVerif.C17.model_load_unknown_rejected",
 ]
 RULE = (
     "correspondence: coulomb_gaussian_s / coulomb_gaussian_p x normalized in {True, False} on (alpha, r) with alpha "
-    "log-uniform over 1e-6..1e6 plus structured values (table exponents, powers of ten, extremes), r in {0, denormal, 1e-20, "
-    "threshold -/+ 1 ulp, threshold, 2x threshold, x/sqrt(alpha) for x log-uniform 1e-3..30, 1e3, 1e8, 1e150, inf} and rejected "
-    "inputs (alpha <= 0, r < 0); coulomb_potential on random centre/coefficient sets (0..5 s, none or 0..4 p functions, 0..6 "
-    "points incl. points on a centre and one threshold away, mixed-sign coefficients, rejected exponents); "
-    "load_atomic_gaussian_params for every symbol and number of num2sym with random case/padding, non-elements and out-of-range "
-    "numbers. Non-trivial = a scalar case with 0 < sqrt(alpha) r < 6 (erf neither 0 nor saturated) or r within a factor 4 of the "
-    "switch threshold; a multi-centre case with >= 2 functions; a loader case whose text differs from the stored key"
+    "log-uniform over 1e-6..1e6 plus structured values (table exponents, powers of ten, extremes), r in {0, -0.0, denormal, 1e-20, "
+    "threshold -/+ 1 ulp, threshold, 2x threshold, x/sqrt(alpha) for x log-uniform 1e-3..30, small integers, 1e3, 1e8, 1e150, inf} "
+    "and rejected inputs (alpha <= 0, r < 0); the same functions on every container kind of r (list, tuple, int / float32 / 2-D / "
+    "0-d / Fortran / strided / read-only arrays, Python and NumPy scalars) and of alpha (int, np.int64, np.float32, 0-d array), "
+    "`normalized` positional / keyword / omitted, against the float64 call on the same values (shape of np.atleast_1d, dtype, "
+    "inputs untouched); the GENERATED coulomb_potential through the driver on arrays with explicit shapes: random centre/coefficient "
+    "sets (0..5 s, none or 0..4 p functions, 0..6 points incl. points on a centre and one threshold away, tight Gaussians with "
+    "alpha up to 1e14 next to the switch, mixed-sign coefficients, rejected exponents), every argument in a random container kind "
+    "(float64 / float32 / int arrays, lists, tuples, strided, Fortran, read-only), the same array object for s and p parameters, "
+    "every call repeated (identical result, inputs byte-identical), `normalized` and the p arguments positional or by keyword, and "
+    "the malformed-shape stream (wrong ndim / last axis / lengths, every partial-None pattern, empty lists) with the error class "
+    "compared; the GENERATED load_atomic_gaussian_params through the driver as a history: every symbol and number of num2sym with "
+    "random case/padding, non-elements, out-of-range / huge / negative numbers, bool, NumPy integers of several widths, floats and "
+    "other objects, in shuffled order with repeats, the module cache forced to None at random positions; per call the outcome, the "
+    "arrays and the state of the cache afterwards are compared with the model started in the same cache state, the arrays also "
+    "with the stateless JSON table, returned arrays are overwritten by the caller. Non-trivial = a scalar case with "
+    "0 < sqrt(alpha) r < 6 (erf neither 0 nor saturated) or r within a factor 4 of the switch threshold; a multi-centre case with "
+    ">= 2 functions and >= 1 point; a loader case whose text differs from the stored key or that starts from an empty cache"
 )
 TRUSTED_BASE = [
     "Lean 4.33 kernel, Mathlib; axioms propext, Classical.choice, Quot.sound only (audited per theorem)",
     "Elem R instance: erf := realErf (2/sqrt(pi) * integral_0^x exp(-t^2)), sqrt/exp/rpow/pi := Mathlib's",
     "documented densities rhoS/rhoP (from the docstrings) and the shell-theorem reading 'potential = (1/r) int_0^r 4 pi s^2 rho + int_r^inf 4 pi s rho'",
-    "translator harness/translate/coulomb.py (ast -> Lean, elementwise reading of np.divide(where=)/masked assignment); self-checked at Float against the source function on every run",
-    "hand models (coulomb_potential loop, loader, ASCII strip/title) tied by correspondence",
+    "translators harness/translate/coulomb.py (closed forms: elementwise reading of np.divide(where=)/masked assignment) and coulomb_py.py (coulomb_potential, load_atomic_gaussian_params: statement by statement into do-blocks; typing context POT_SIG/LOAD_SIG); self-checked at Float against the source functions on every run",
+    "hand-written primitives of Model/CoulombPy.lean (NdArg = shape + row-major data, iteration, the one broadcasting pattern points - row, norm over the last axis, array-level call of a closed form, zip, dict lookups, isinstance table incl. bool <: int, ASCII strip/title, LoadM = exceptions + module-level cache, file read as an environment function) -- what each NumPy/Python operation means; tied by correspondence",
     "Float instance of the model (floatErf series, libm) for the correspondence only",
 ]
 ASSUMPTIONS = [
     "IEEE rounding not modelled: equality over the reals in the theorems, rtol 1e-10 in the correspondence",
     "theorems on the differential equation are stated for radii above the 1e-12 switch; below it the code returns the limit value and the deviation from the closed form is bounded by s_origin / s_code_vs_closed_form",
-    "shape validation of coulomb_potential and type errors of the loader are outside the model (checked on a malformed stream: rejected by the implementation)",
-    "loader model restricted to ASCII input",
-    "np.empty_like contents are never read (true for non-NaN radii; NaN radii are outside the property)",
+    "np.asarray(x, dtype=float) is the identity of the model: conversion of lists / tuples / integer and single-precision arrays to float64 arrays happens before the model starts (exercised by the container-kind cases); objects NumPy cannot convert (ragged lists, strings) are outside the model and only checked to raise ValueError",
+    "NaN / infinite coordinates are outside the property; np.empty_like contents are never read for non-NaN radii",
+    "loader model restricted to ASCII input; the JSON numbers are exact decimals in the model and the nearest doubles in Python (compared to 4e-16)",
+    "alpha given as np.float32 is computed in single precision by NumPy (deviation ~3e-8, docstring says float): pinned with rtol 1e-6, information only",
 ]
 
 RTOL = 1e-10
@@ -111,7 +146,7 @@ def _alphas(ctx: Ctx, n, table_alphas):
 
 def _radii(ctx: Ctx, alpha, thr, k):
     sa = math.sqrt(alpha) if alpha > 0 else 1.0
-    rs = [0.0, 5e-324, 1e-300, 1e-20, 1e-13, float(np.nextafter(thr, 0.0)), thr, float(np.nextafter(thr, 1.0)),
+    rs = [0.0, -0.0, 1.0, 2.0, 3.0, 5e-324, 1e-300, 1e-20, 1e-13, float(np.nextafter(thr, 0.0)), thr, float(np.nextafter(thr, 1.0)),
           2 * thr, 3.7 * thr, 0.3 * thr, 1e-9, 1e3, 1e8, 1e150, float("inf")]
     for _ in range(k):
         x = 10.0 ** ctx.rng.uniform(-3, math.log10(30))
@@ -198,6 +233,9 @@ def corr(ctx: Ctx):
                 ctx.fail("corr", f"coulomb_gaussian_{kind}:elementwise", f"coulomb_gaussian_{kind} on an array differs from the "
                          f"calls on its elements (alpha={alpha!r})", witness={"r": rs.tolist(), "alpha": alpha})
 
+    # -- container kinds / dtypes / call paths of the scalar functions -----------------------------
+    _corr_scalar_containers(ctx, cb, thr)
+
     # -- the hand-written corrected p formula is what mpmath's Coulomb integral gives ------
     pts = [(0.0, 1.0), (0.0, 3.0), (0.5, 3.0), (2.0, 3.0), (1.0, 1.0), (0.1, 7.5), (3.0, 0.3), (1e-13, 2.0),
            (10.0 ** ctx.rng.uniform(-2, 1), 10.0 ** ctx.rng.uniform(-2, 2))]
@@ -227,99 +265,366 @@ def _rand_gaussians(ctx: Ctx, k, bad_alpha=False):
     return centers, coeffs, alphas
 
 
-def _corr_multi(ctx: Ctx, cb, thr):
-    n = ctx.n(160, 4000)
+# ---- container kinds -------------------------------------------------------------------------
+KINDS = ("f64", "list", "tuple", "f32", "strided", "fortran", "readonly", "int", "int32")
+
+
+def _as_kind(x, kind):
+    """The float array `x` as another container / dtype / memory layout (values may be rounded:
+    the reference is always np.asarray(result, dtype=float))."""
+    x = np.array(x, dtype=float)
+    if kind == "f64":
+        return x
+    if kind == "list":
+        return x.tolist()
+    if kind == "tuple":
+        return tuple(map(tuple, x.tolist())) if x.ndim == 2 else tuple(x.tolist())
+    if kind == "f32":
+        return x.astype(np.float32)
+    if kind == "int":
+        return np.rint(x).astype(np.int64)
+    if kind == "int32":
+        return np.rint(x).astype(np.int32)
+    if kind == "strided":
+        big = np.full((2 * x.shape[0] + 1,) + x.shape[1:], 7.25)
+        big[1::2] = x
+        return big[1::2]
+    if kind == "fortran":
+        return np.asfortranarray(x)
+    if kind == "readonly":
+        y = x.copy()
+        y.setflags(write=False)
+        return y
+    raise KeyError(kind)
+
+
+def _snapshot(objs):
+    return [(o.tobytes(), o.dtype.str, o.shape) if isinstance(o, np.ndarray) else repr(o) for o in objs]
+
+
+def _corr_scalar_containers(ctx: Ctx, cb, thr):
+    """r / alpha in every container kind and dtype, `normalized` by every route: equal to the float64
+    call on the same values; shape = np.atleast_1d(r).shape; float64 result; inputs untouched."""
+    fns = {"s": cb.coulomb_gaussian_s, "p": cb.coulomb_gaussian_p}
+    for kind in ("s", "p"):
+        fn = fns[kind]
+        for nz in (True, False):
+            alpha = ctx.rng.choice([2.0, 3.0, 1.0, 7.0, float(int(10.0 ** ctx.rng.uniform(0, 4)))])  # integer-valued: int kinds are exact
+            sa = math.sqrt(alpha)
+            base = np.array([0.0, -0.0, 5e-324, thr / 2, float(np.nextafter(thr, 0)), thr, 2 * thr, 0.3 / sa, 1.0, 2.0, 1 / sa,
+                             2.5 / sa, 7 / sa, ctx.rng.uniform(0, 3) / sa, 1e3, 3.0])
+            with np.errstate(all="ignore"):
+                def ref_of(values):
+                    return fn(np.array(values, dtype=float).ravel().copy(), float(alpha), normalized=nz)
+
+                variants = []
+                for k in KINDS:
+                    variants.append((k, _as_kind(base, k), float(alpha)))
+                variants.append(("2d", base.reshape(4, 4), float(alpha)))
+                variants.append(("2d-f32-fortran", np.asfortranarray(base.reshape(2, 8).astype(np.float32)), float(alpha)))
+                variants.append(("3d", base.reshape(2, 2, 4), float(alpha)))
+                variants.append(("nested-list", base.reshape(4, 4).tolist(), float(alpha)))
+                variants.append(("empty", np.array([]), float(alpha)))
+                for x in (0.0, -0.0, 5e-324, thr, 1 / sa, 2.0):
+                    variants.append(("0d", np.array(x), float(alpha)))
+                    variants.append(("pyfloat", float(x), float(alpha)))
+                    variants.append(("np.float64", np.float64(x), float(alpha)))
+                    variants.append(("np.float32", np.float32(x), float(alpha)))
+                    variants.append(("one-element", np.array([x]), float(alpha)))
+                for x in (0, 1, 3):
+                    variants.append(("pyint", x, float(alpha)))
+                    variants.append(("np.int64", np.int64(x), float(alpha)))
+                    variants.append(("bool", bool(x), float(alpha)))
+                variants.append(("int-array-with-0", np.array([0, 3, 0, 1]), float(alpha)))
+                for ak, av in (("alpha:int", int(alpha)), ("alpha:np.int64", np.int64(int(alpha))), ("alpha:np.int32", np.int32(int(alpha))),
+                               ("alpha:np.float64", np.float64(alpha)), ("alpha:0d", np.array(float(alpha))),
+                               ("alpha:np.float32", np.float32(alpha))):
+                    variants.append((ak, base, av))
+                for name, robj, aobj in variants:
+                    snap = _snapshot([robj, aobj])
+                    want_shape = np.atleast_1d(np.asarray(robj)).shape
+                    vals = np.asarray(robj, dtype=float)
+                    ref = ref_of(vals)
+                    routes = [("kw", lambda: fn(robj, aobj, normalized=nz)), ("pos", lambda: fn(robj, aobj, nz)),
+                              ("allkw", lambda: fn(r=robj, alpha=aobj, normalized=nz))]
+                    if nz:
+                        routes.append(("default", lambda: fn(robj, aobj)))
+                    for route, call in routes:
+                        ctx.count([kind, "container", name, route, nz, alpha], nontrivial=False, tag=f"{kind}:container:{name.split(':')[0]}")
+                        try:
+                            got = call()
+                            again = call()
+                        except Exception as e:  # noqa: BLE001
+                            ctx.fail("corr", f"coulomb_gaussian_{kind}:container", f"coulomb_gaussian_{kind}(r as {name}, alpha={aobj!r} "
+                                     f"[{type(aobj).__name__}], normalized={nz} via {route}) raised {type(e).__name__}: {e}; the float64 call on the same values succeeds",
+                                     witness={"r": vals.ravel().tolist(), "alpha": float(alpha), "normalized": nz, "container": name, "route": route})
+                            continue
+                        rtol = 1e-6 if name == "alpha:np.float32" else 1e-13
+                        ok = isinstance(got, np.ndarray) and got.shape == want_shape and got.dtype == np.float64 \
+                            and all(close(float(a), float(b), rtol=rtol) for a, b in zip(got.ravel(), ref)) \
+                            and np.array_equal(got, again, equal_nan=True) and _snapshot([robj, aobj]) == snap \
+                            and not (isinstance(robj, np.ndarray) and np.shares_memory(got, robj))
+                        if not ok:
+                            bad = [i for i, (a, b) in enumerate(zip(np.asarray(got).ravel(), ref)) if not close(float(a), float(b), rtol=rtol)]
+                            w = {"r": float(vals.ravel()[bad[0]]) if bad else vals.ravel().tolist()[:6], "alpha": float(alpha), "normalized": nz,
+                                 "container": name, "route": route, "got_shape": list(np.shape(got)), "want_shape": list(want_shape),
+                                 "got": np.asarray(got).ravel().tolist()[:8], "float64_call": ref.tolist()[:8]}
+                            ctx.fail("corr", f"coulomb_gaussian_{kind}:container", f"coulomb_gaussian_{kind}(r as {name}, alpha as "
+                                     f"{type(aobj).__name__}, normalized={nz} via {route}) differs from the float64 call on the same values "
+                                     f"(or wrong shape/dtype, second call different, input modified, result aliasing the input)", witness=w)
+                        if name == "alpha:np.float32" and not all(close(float(a), float(b), rtol=1e-10) for a, b in zip(got.ravel(), ref)):
+                            ctx.tagc(f"{kind}:info:alpha-float32-single-precision")
+
+
+# ---- coulomb_potential -----------------------------------------------------------------------
+def _nd(a) -> str:
+    a = np.asarray(a, dtype=float)
+    return vec(a.shape) + " " + fvec(a.ravel(order="C"))
+
+
+def _optnd(a) -> str:
+    return "0" if a is None else "1 " + _nd(a)
+
+
+POT_NAMES = ("points", "centers_s", "coeffs_s", "alphas_s", "centers_p", "coeffs_p", "alphas_p")
+
+
+def _pot_line(call):
+    """Driver line of a call (dict of the seven array arguments as handed to the implementation +
+    normalized); None if NumPy cannot even convert an argument (outside the model)."""
+    try:
+        parts = [_nd(call[n]) for n in POT_NAMES[:4]] + [_optnd(call.get(n)) for n in POT_NAMES[4:]]
+    except (ValueError, TypeError):
+        return None
+    return f"C17.pot {int(bool(call.get('normalized', True)))} " + " ".join(parts)
+
+
+def _pot_invoke(cb, call, route):
+    a = [call[n] for n in POT_NAMES[:4]]
+    p = {n: call[n] for n in POT_NAMES[4:] if n in call}
+    nz = call.get("normalized", True)
+    if route == "kw":
+        return cb.coulomb_potential(*a, normalized=nz, **p)
+    if route == "pos":
+        return cb.coulomb_potential(*a, call.get("centers_p"), call.get("coeffs_p"), call.get("alphas_p"), nz)
+    if route == "allkw":
+        return cb.coulomb_potential(**{n: call[n] for n in POT_NAMES[:4]}, normalized=nz, **p)
+    if route == "default":  # only used when normalized is True
+        return cb.coulomb_potential(*a, **p)
+    raise KeyError(route)
+
+
+def _impl_pot(cb, call, route="kw"):
+    try:
+        with np.errstate(all="ignore"):
+            v = _pot_invoke(cb, call, route)
+        return "ok", v
+    except ValueError:
+        return "value-error", None
+    except TypeError:
+        return "type-error", None
+    except IndexError:
+        return "index-error", None
+    except AttributeError:
+        return "attribute-error", None
+
+
+def _call_witness(call):
+    w = {}
+    for n in POT_NAMES:
+        if n in call:
+            v = call[n]
+            try:
+                w[n] = None if v is None else np.asarray(v, dtype=float).tolist()
+            except (ValueError, TypeError):
+                w[n] = repr(v)
+            w[n + ":kind"] = type(v).__name__ + (f"[{v.dtype},{'C' if v.flags.c_contiguous else 'strided/F'},{'rw' if v.flags.writeable else 'ro'}]"
+                                                 if isinstance(v, np.ndarray) else "")
+    w["normalized"] = bool(call.get("normalized", True))
+    return w
+
+
+def _pot_scale(cb, call):
+    """sum of |c| |V_k| per point: magnitude of the intermediates of the accumulation"""
+    P = np.asarray(call["points"], dtype=float)
+    scale = np.zeros(len(P))
+    nz = bool(call.get("normalized", True))
+    with np.errstate(all="ignore"):
+        for kind, fn in (("s", cb.coulomb_gaussian_s), ("p", cb.coulomb_gaussian_p)):
+            if call.get("coeffs_" + kind) is None:
+                continue
+            for c, a, ctr in zip(np.asarray(call["coeffs_" + kind], float), np.asarray(call["alphas_" + kind], float),
+                                 np.asarray(call["centers_" + kind], float)):
+                try:
+                    scale += abs(c) * np.abs(fn(np.linalg.norm(P - ctr, axis=-1), a, normalized=nz))
+                except ValueError:
+                    pass  # the model and the implementation are compared on the tag first
+    return scale
+
+
+def _gen_pot_cases(ctx: Ctx, thr, n):
     cases = []
+
+    def gaussians(k, bad=False, tight=False, integer=False):
+        if integer:
+            centers = [[float(ctx.rng.randint(-2, 2)) for _ in range(3)] for _ in range(k)]
+            coeffs = [float(ctx.rng.choice([1, -1, 2, 3, 0])) for _ in range(k)]
+            alphas = [float(ctx.rng.choice([1, 2, 3, 10, 1000])) for _ in range(k)]
+        else:
+            centers, coeffs, alphas = _rand_gaussians(ctx, k)
+            if tight:
+                alphas = [10.0 ** ctx.rng.uniform(6, 14) for _ in range(k)]
+            elif ctx.rng.random() < 0.2:
+                alphas = [10.0 ** ctx.rng.uniform(-12, 12) for _ in range(k)]
+        if bad and k:
+            alphas[ctx.rng.randrange(k)] = ctx.rng.choice([0.0, -1.0, -1e-9, -0.0])
+        return centers, coeffs, alphas
+
     for i in range(n):
+        integer = ctx.rng.random() < 0.15
+        tight = (not integer) and ctx.rng.random() < 0.15
         ks = ctx.rng.choice([0, 1, 1, 2, 3, 5])
         havep = ctx.rng.random() < 0.6
         kp = ctx.rng.choice([0, 1, 2, 4]) if havep else 0
-        bad = ctx.rng.random() < 0.08
-        badp = havep and ctx.rng.random() < 0.06
-        cs, ks_, as_ = _rand_gaussians(ctx, ks, bad_alpha=bad)
-        cp, kp_, ap_ = _rand_gaussians(ctx, kp, bad_alpha=badp)
+        cs, ks_, as_ = gaussians(ks, bad=ctx.rng.random() < 0.08, tight=tight, integer=integer)
+        cp, kp_, ap_ = gaussians(kp, bad=havep and ctx.rng.random() < 0.06, tight=tight, integer=integer)
         npt = ctx.rng.choice([0, 1, 2, 3, 6])
-        points = []
-        allc = cs + cp
+        points, allc = [], cs + cp
         for _ in range(npt):
             u = ctx.rng.random()
             if allc and u < 0.25:
                 points.append(list(ctx.rng.choice(allc)))  # on a nucleus: r = 0
-            elif allc and u < 0.45:
+            elif allc and u < (0.8 if tight else 0.45) and not integer:
                 c = list(ctx.rng.choice(allc))
-                c[ctx.rng.randrange(3)] += ctx.rng.choice([thr, 0.5 * thr, 2 * thr, -thr, 1e-9])
+                c[ctx.rng.randrange(3)] += ctx.rng.choice([thr, 0.5 * thr, 2 * thr, -thr, 1e-9, 1.0000001 * thr, 3 * thr, 17 * thr, 1e-11])
                 points.append(c)
+            elif integer:
+                points.append([float(ctx.rng.randint(-3, 3)) for _ in range(3)])
             else:
                 points.append([ctx.rng.uniform(-4, 4) for _ in range(3)])
-        nz = ctx.rng.random() < 0.6
-        cases.append((nz, points, (cs, ks_, as_), (cp, kp_, ap_) if havep else None))
-    lines = []
-    for nz, points, s, p in cases:
-        ln = f"C17.pot {int(nz)} {fmat(points) if points else '0 3'} {fmat(s[0]) if s[0] else '0 3'} {fvec(s[1])} {fvec(s[2])}"
-        if p is None:
-            ln += " 0"
-        else:
-            ln += f" 1 {fmat(p[0]) if p[0] else '0 3'} {fvec(p[1])} {fvec(p[2])}"
-        lines.append(ln)
+        kinds = ["f64"] * 7 if ctx.rng.random() < 0.35 else [ctx.rng.choice(KINDS[:7] + (("int", "int32") if integer else ())) for _ in range(7)]
+        arrs = [np.array(points, dtype=float).reshape(-1, 3), np.array(cs, dtype=float).reshape(-1, 3), np.array(ks_, dtype=float),
+                np.array(as_, dtype=float), np.array(cp, dtype=float).reshape(-1, 3), np.array(kp_, dtype=float), np.array(ap_, dtype=float)]
+        call = {nme: _as_kind(a, k) for nme, a, k in zip(POT_NAMES, arrs, kinds)}
+        if not havep:
+            for nme in POT_NAMES[4:]:
+                del call[nme]
+            if ctx.rng.random() < 0.3:
+                for nme in POT_NAMES[4:]:
+                    call[nme] = None  # explicit None
+        call["normalized"] = ctx.rng.random() < 0.6
+        route = ctx.rng.choice(["kw", "kw", "pos", "allkw"] + (["default"] if call["normalized"] else []))
+        cases.append((call, route, ("f64" if set(kinds) == {"f64"} else "mixed:" + "+".join(sorted(set(kinds)))) + (":tight" if tight else "") + (":int" if integer else "")))
+    # the same array objects for the s and the p parameters / for several parameters
+    for _ in range(max(4, n // 20)):
+        k = ctx.rng.choice([1, 2, 3])
+        cs, ks_, as_ = _rand_gaussians(ctx, k)
+        C, Kc, A = np.array(cs).reshape(-1, 3), np.array(ks_), np.array(as_)
+        pts = np.array(cs + [[ctx.rng.uniform(-2, 2) for _ in range(3)]])
+        cases.append((dict(points=pts, centers_s=C, coeffs_s=Kc, alphas_s=A, centers_p=C, coeffs_p=Kc, alphas_p=A,
+                           normalized=ctx.rng.random() < 0.5), "kw", "same-object-s-p"))
+        cases.append((dict(points=C, centers_s=C, coeffs_s=A, alphas_s=A, normalized=ctx.rng.random() < 0.5), "pos", "same-object-points-centres"))
+    return cases
+
+
+def _malformed_pot_calls():
+    P = np.zeros((2, 3)); S = np.zeros((1, 3)); one = [1.0]
+    ok = dict(points=P, centers_s=S, coeffs_s=one, alphas_s=one)
+    out = [
+        dict(ok, points=np.zeros((2, 2))), dict(ok, points=np.zeros(3)), dict(ok, points=np.zeros((2, 3, 1))), dict(ok, points=np.float64(1.0)),
+        dict(ok, points=np.zeros((3, 2)).T[:, :2]), dict(ok, points=[]), dict(ok, points=[[]]), dict(ok, points=np.zeros((0, 2))),
+        dict(ok, points=np.zeros((2, 4))), dict(ok, points=[0.0, 0.0, 0.0]),
+        dict(ok, centers_s=np.zeros((1, 2))), dict(ok, centers_s=np.zeros(3)), dict(ok, centers_s=np.zeros((1, 3, 1))), dict(ok, centers_s=[]),
+        dict(ok, centers_s=np.zeros((2, 3))), dict(ok, centers_s=np.zeros((0, 3))), dict(ok, centers_s=np.zeros((3, 1))),
+        dict(ok, coeffs_s=[1.0, 2.0]), dict(ok, coeffs_s=[]), dict(ok, coeffs_s=1.0), dict(ok, coeffs_s=[[1.0]]), dict(ok, coeffs_s=np.zeros((1, 1))),
+        dict(ok, alphas_s=[1.0, 2.0]), dict(ok, alphas_s=[]), dict(ok, alphas_s=1.0), dict(ok, alphas_s=[[1.0]]),
+        dict(ok, alphas_s=[-1.0, 2.0]), dict(ok, points=np.zeros((2, 2)), alphas_s=[-1.0]),
+        dict(ok, centers_s=np.zeros((0, 3)), coeffs_s=[], alphas_s=[1.0]), dict(ok, centers_s=np.zeros((0, 3)), coeffs_s=[1.0], alphas_s=[]),
+    ]
+    # every pattern of present / absent p arguments (present ones well-shaped)
+    good = dict(centers_p=S, coeffs_p=one, alphas_p=one)
+    for mask in range(8):
+        d = dict(ok)
+        for b, nme in enumerate(POT_NAMES[4:]):
+            if mask >> b & 1:
+                d[nme] = good[nme]
+            elif mask & 4:
+                d[nme] = None
+        out.append(d)
+    okp = dict(ok, **good)
+    out += [
+        dict(okp, coeffs_p=[1.0, 1.0]), dict(okp, alphas_p=[1.0, 3.0]), dict(okp, centers_p=np.zeros((1, 4))), dict(okp, centers_p=np.zeros(3)),
+        dict(okp, centers_p=np.zeros((2, 3))), dict(okp, coeffs_p=[]), dict(okp, alphas_p=2.0), dict(okp, coeffs_p=[[1.0]]), dict(okp, centers_p=[]),
+        dict(okp, centers_p=np.zeros((0, 3)), coeffs_p=[], alphas_p=[]), dict(okp, alphas_p=[0.0]), dict(okp, alphas_p=[-2.0], centers_p=np.zeros((1, 2))),
+        dict(okp, points=np.zeros((0, 3)), alphas_p=[0.0]), dict(okp, points=np.zeros((0, 3))),
+        # a well-shaped p set with malformed s arguments, and the other way round
+        dict(okp, coeffs_s=[1.0, 2.0]), dict(okp, points=np.zeros(3), coeffs_p=None),
+    ]
+    return out
+
+
+def _corr_multi(ctx: Ctx, cb, thr):
+    cases = _gen_pot_cases(ctx, thr, ctx.n(220, 5000))
+    cases += [(c, ctx.rng.choice(["kw", "pos", "allkw"]), "malformed") for c in _malformed_pot_calls()]
+    lines = [_pot_line(c) for c, _, _ in cases]
+    if any(ln is None for ln in lines):
+        raise RuntimeError("a generated coulomb_potential case cannot be converted by NumPy")
     answers = driver_batch(lines)
-    for (nz, points, s, p), line in zip(cases, answers):
-        P = np.array(points, dtype=float).reshape(-1, 3)
-        S = np.array(s[0], dtype=float).reshape(-1, 3)
-        kw = {}
-        if p is not None:
-            kw = dict(centers_p=np.array(p[0], dtype=float).reshape(-1, 3), coeffs_p=np.array(p[1]), alphas_p=np.array(p[2]))
-        try:
-            with np.errstate(all="ignore"):
-                v = cb.coulomb_potential(P, S, np.array(s[1]), np.array(s[2]), normalized=nz, **kw)
-            itag = "ok"
-        except ValueError:
-            itag, v = "value-error", None
+    for (call, route, label), line in zip(cases, answers):
+        objs = [call.get(nme) for nme in POT_NAMES]
+        snap = _snapshot(objs)
+        itag, v = _impl_pot(cb, call, route)
+        itag2, v2 = _impl_pot(cb, call, "kw" if route != "kw" else "allkw")  # second call, another route, same objects
         mtag, t = _ans(line)
-        nfun = len(s[1]) + (len(p[1]) if p else 0)
-        ctx.count(["pot", nz, points, s, p], nontrivial=nfun >= 2 and len(points) > 0,
-                  tag="pot:" + ("reject" if itag != "ok" else f"s{len(s[1])}p{'-' if p is None else len(p[1])}"))
+        ns = len(np.asarray(call["coeffs_s"], dtype=float).reshape(-1))
+        np_ = None if call.get("coeffs_p") is None else len(np.asarray(call["coeffs_p"], dtype=float).reshape(-1))
+        npts = len(np.asarray(call["points"], dtype=float)) if np.ndim(call["points"]) else 0
+        ctx.count(["pot", _call_witness(call), route], nontrivial=label != "malformed" and ns + (np_ or 0) >= 2 and npts > 0,
+                  tag="pot:" + (label if label == "malformed" else "reject" if itag != "ok" else f"s{ns}p{'-' if np_ is None else np_}"))
+        if label.startswith("mixed:"):
+            for kd in label.split(":")[1].split("+"):
+                ctx.tagc("pot:kind:" + kd)
+        elif label != "malformed":
+            ctx.tagc("pot:kind:" + label.split(":")[0])
+        for extra in ("tight", "int"):
+            if label.endswith(":" + extra):
+                ctx.tagc("pot:class:" + extra)
+        ctx.tagc("pot:route:" + route)
+        w = dict(_call_witness(call), route=route)
         if itag != mtag:
-            ctx.fail("corr", "coulomb_potential", f"coulomb_potential: implementation {itag}, model {mtag}",
-                     witness={"normalized": nz, "points": points, "s": s, "p": p})
+            ctx.fail("corr", "coulomb_potential" + (":malformed" if label == "malformed" else ""),
+                     f"coulomb_potential ({label}, via {route}): implementation {itag}, generated model {mtag or 'unmodelled'}", witness=w)
             continue
+        if itag2 != itag or (itag == "ok" and not np.array_equal(v, v2, equal_nan=True)):
+            ctx.fail("corr", "coulomb_potential:repeat", f"coulomb_potential called twice with the same objects ({label}; {route} then another route): "
+                     f"{itag} {None if v is None else v.tolist()} then {itag2} {None if v2 is None else v2.tolist()}", witness=w)
+        if _snapshot(objs) != snap:
+            ctx.fail("corr", "coulomb_potential:inputs-modified", f"coulomb_potential modified one of its arguments ({label})", witness=w)
         if itag != "ok":
             continue
-        mv = t.fvec()
-        # scale of the intermediates: sum of |c| |V_k| per point
-        scale = np.zeros(len(points))
-        with np.errstate(all="ignore"):
-            for c, a, ctr in zip(s[1], s[2], s[0]):
-                scale += abs(c) * np.abs(cb.coulomb_gaussian_s(np.linalg.norm(P - np.array(ctr), axis=-1), a, normalized=nz))
-            if p is not None:
-                for c, a, ctr in zip(p[1], p[2], p[0]):
-                    scale += abs(c) * np.abs(cb.coulomb_gaussian_p(np.linalg.norm(P - np.array(ctr), axis=-1), a, normalized=nz))
-        ok = len(mv) == len(v) and all(close(float(a), b, rtol=RTOL, scale=max(float(sc), abs(b))) for a, b, sc in zip(v, mv, scale))
+        mshape, mv = t.vec(), t.fvec()
+        scale = _pot_scale(cb, call)
+        ok = isinstance(v, np.ndarray) and v.dtype == np.float64 and list(v.shape) == mshape and len(mv) == len(v) \
+            and all(close(float(a), b, rtol=RTOL, scale=max(float(sc), abs(b))) for a, b, sc in zip(v, mv, scale)) \
+            and not any(isinstance(o, np.ndarray) and np.shares_memory(v, o) for o in objs)
         if not ok:
-            ctx.fail("corr", "coulomb_potential", f"coulomb_potential: implementation {v.tolist()}, model {mv}",
-                     witness={"normalized": nz, "points": points, "s": s, "p": p})
-    # malformed stream: rejected before the modelled part
+            ctx.fail("corr", "coulomb_potential", f"coulomb_potential ({label}, via {route}): implementation {v.tolist()} "
+                     f"[{v.dtype}, shape {v.shape}], generated model {mv} [shape {mshape}]", witness=w)
+    # outside the model: arguments NumPy cannot convert to a float array must raise ValueError / TypeError, never return
     P = np.zeros((2, 3)); S = np.zeros((1, 3))
-    malformed = [
-        dict(points=np.zeros((2, 2)), centers_s=S, coeffs_s=[1.0], alphas_s=[1.0]),
-        dict(points=np.zeros(3), centers_s=S, coeffs_s=[1.0], alphas_s=[1.0]),
-        dict(points=P, centers_s=np.zeros((1, 2)), coeffs_s=[1.0], alphas_s=[1.0]),
-        dict(points=P, centers_s=S, coeffs_s=[1.0, 2.0], alphas_s=[1.0]),
-        dict(points=P, centers_s=S, coeffs_s=[1.0], alphas_s=[1.0, 2.0]),
-        dict(points=P, centers_s=S, coeffs_s=[1.0], alphas_s=[1.0], coeffs_p=[1.0]),
-        dict(points=P, centers_s=S, coeffs_s=[1.0], alphas_s=[1.0], centers_p=S, alphas_p=[1.0]),
-        dict(points=P, centers_s=S, coeffs_s=[1.0], alphas_s=[1.0], centers_p=S, coeffs_p=[1.0, 1.0], alphas_p=[1.0]),
-        dict(points=P, centers_s=S, coeffs_s=[1.0], alphas_s=[1.0], centers_p=S, coeffs_p=[1.0], alphas_p=[1.0, 3.0]),
-        dict(points=P, centers_s=S, coeffs_s=[1.0], alphas_s=[1.0], centers_p=np.zeros((1, 4)), coeffs_p=[1.0], alphas_p=[1.0]),
-    ]
-    for kw in malformed:
-        ctx.count(["pot-malformed", sorted(kw)], nontrivial=False, tag="pot:malformed")
+    for kw in (dict(points=[[0, 0, 0], [1, 2]], centers_s=S, coeffs_s=[1.0], alphas_s=[1.0]),
+               dict(points=P, centers_s=S, coeffs_s=["a"], alphas_s=[1.0]),
+               dict(points=P, centers_s=S, coeffs_s=[1.0], alphas_s=["x"]),
+               dict(points=P, centers_s=S, coeffs_s=[1.0], alphas_s=[1.0], centers_p=S, coeffs_p=[[1.0], [1.0, 2.0]], alphas_p=[1.0])):
+        ctx.count(["pot-unconvertible", sorted(kw)], nontrivial=False, tag="pot:unconvertible")
         try:
             cb.coulomb_potential(**kw)
-            ctx.fail("corr", "coulomb_potential:malformed", f"malformed call not rejected: {sorted(kw)}")
-        except ValueError:
+            ctx.fail("corr", "coulomb_potential:malformed", f"call with an argument NumPy cannot convert was not rejected: {sorted(kw)}")
+        except (ValueError, TypeError):
             pass
 
 
+# ---- loader ----------------------------------------------------------------------------------
 def _variants(ctx: Ctx, sym):
     pads = ["", " ", "  ", "\t", "\n", "\x0b", "\x0c", "\r", "\x1c", "\x1f", " \t "]
     out = {sym, sym.lower(), sym.upper(), sym.swapcase()}
@@ -331,63 +636,166 @@ def _variants(ctx: Ctx, sym):
 def _impl_load(cb, e):
     try:
         c, a = cb.load_atomic_gaussian_params(e)
-        return ("ok", (np.array(c), np.array(a)))
+        return ("ok", (c, a))
     except ValueError:
         return ("value-error", None)
     except TypeError:
         return ("type-error", None)
+    except KeyError:
+        return ("key-error", None)
+    except AttributeError:
+        return ("attribute-error", None)
+    except OSError:
+        return ("os-error", None)
+
+
+def _expected_load(e, utils, raw_float):
+    """The documented contract of load_atomic_gaussian_params, from the JSON file and grid.utils only:
+    ('ok', coeffs, alphas) | ('value-error',) | ('type-error',)."""
+    if isinstance(e, str):
+        sym = e.strip().title()
+        sym = sym if sym in utils.sym2num else None
+    elif isinstance(e, (int, np.integer)):  # bool is an int
+        sym = utils.num2sym.get(int(e))
+    else:
+        return ("type-error",)
+    if sym is None or sym not in raw_float:
+        return ("value-error",)
+    return ("ok", np.array(raw_float[sym]["coeffs_s"], dtype=float), np.array(raw_float[sym]["alphas_s"], dtype=float))
+
+
+def _py_expr(e):
+    """Python source that rebuilds the object (for witnesses / snippets); None if not expressible."""
+    if isinstance(e, (str, bool, int, float, type(None), bytes, complex)):
+        return repr(e)
+    if isinstance(e, np.generic):
+        return f"np.{type(e).__name__}({e.item()!r})"
+    if isinstance(e, (list, tuple)) and all(isinstance(x, (int, float, str)) for x in e):
+        return repr(e)
+    return None
+
+
+def _load_line(e, cold):
+    """Driver op for one loader call, or None when the object is outside the model (non-ASCII text)."""
+    st = "cold" if cold else "warm"
+    if isinstance(e, (bool, np.bool_)):
+        return f"C17.load {st} bool {int(e)}" if isinstance(e, bool) else f"C17.load {st} other"
+    if isinstance(e, str):
+        if any(ord(ch) >= 128 for ch in e):
+            return None
+        return f"C17.load {st} str " + " ".join([str(len(e))] + [str(ord(ch)) for ch in e])
+    if isinstance(e, int):
+        return f"C17.load {st} int {e}"
+    if isinstance(e, np.integer):
+        return f"C17.load {st} npint {int(e)}"
+    return f"C17.load {st} other"
+
+
+def _cache_flag(cb, raw_float):
+    c = cb._ATOMIC_GAUSS_PARAMS_CACHE
+    if c is None:
+        return 0
+    return 1 if c == raw_float else 2
 
 
 def _corr_loader(ctx: Ctx, cb, utils, raw):
+    raw_float = {k: {kk: [float(x) for x in vv] for kk, vv in v.items()} for k, v in raw.items()}
     reqs = []
+    np_ints = [np.int64, np.int32, np.uint8, np.int16, np.uint64, np.intp]
     for z, sym in utils.num2sym.items():
-        reqs.append(("num", int(z)))
+        reqs.append(int(z))
+        if int(z) <= 20 or ctx.rng.random() < 0.15:
+            reqs.append(ctx.rng.choice(np_ints)(int(z)))
         for v in _variants(ctx, sym):
-            reqs.append(("sym", v))
-    reqs += [("num", n) for n in (0, -1, -17, 119, 120, 10**6, 2**70)]
+            reqs.append(v)
+    reqs += [0, -1, -17, 119, 120, 10**6, 2**70, -2**70, 10**30, np.int64(0), np.int64(-3), np.int64(119), np.uint8(200), np.int64(2**62),
+             True, False, np.bool_(True), np.bool_(False),
+             1.0, 2.0, np.float64(1.0), np.float32(6.0), None, [1], (1,), b"H", 1 + 0j, {"H": 1}, np.array(1), np.array([1]), np.array("H"), object()]
+    reqs += [" h ", "HE", "he", "h", "H", " H", "H ", "cl", "CL", " cL\n", "Cl", "c", "C", " o", "N\t", "xe", "Xe", "og", "OG"]
     junk = ["", " ", "Xx", "Qq", "H2", "Hydrogen", "h e", "H-", "1", "cl1", "C l", "c\tl", "  ", "A", "zz", "He\x00", "\x1cO\x1d",
-            "hE", "ClCl", "O.", "_N", "n_"]
+            "hE", "ClCl", "O.", "_N", "n_", "h\x00", "\x00h", "c-l", "C1", "1c"]
     for _ in range(ctx.n(40, 1500)):
         L = ctx.rng.randrange(0, 5)
         junk.append("".join(chr(ctx.rng.choice([32, 9, 10, 72, 104, 69, 101, 67, 99, 76, 108, 79, 111, 78, 110, 49, 45, 95,
                                                    ctx.rng.randrange(0, 128)])) for _ in range(L)))
-    reqs += [("sym", j) for j in junk]
-    lines = []
-    for k, v in reqs:
-        if k == "num":
-            lines.append(f"C17.load num {v}")
-        else:
-            lines.append("C17.load sym " + " ".join([str(len(v))] + [str(ord(ch)) for ch in v]))
-    answers = driver_batch(lines)
-    for (k, v), line in zip(reqs, answers):
-        itag, iv = _impl_load(cb, v)
-        mtag, t = _ans(line)
-        stored = (k == "sym" and v in raw)
-        ctx.count(["load", k, v], nontrivial=not stored, tag=f"load:{k}:{itag}")
-        if itag != mtag:
-            ctx.fail("corr", "load_atomic_gaussian_params", f"load_atomic_gaussian_params({v!r}): implementation {itag}, model {mtag}",
-                     witness={"element": v})
+    reqs += junk
+    # history: shuffled, with repeats of the elements that have parameters, other elements in between
+    stored = list(raw)
+    for _ in range(ctx.n(60, 800)):
+        s0 = ctx.rng.choice(stored)
+        reqs.append(ctx.rng.choice([s0, s0.lower(), f" {s0.upper()} ", int(utils.sym2num[s0]), np.int64(utils.sym2num[s0])]))
+    ctx.rng.shuffle(reqs)
+    saved = cb._ATOMIC_GAUSS_PARAMS_CACHE
+    try:
+        # run the implementation as one history, recording the cache state before every call
+        hist = []
+        for k, e in enumerate(reqs):
+            if k == 0 or ctx.rng.random() < 0.07:
+                cb._ATOMIC_GAUSS_PARAMS_CACHE = None  # cold start
+            cold = cb._ATOMIC_GAUSS_PARAMS_CACHE is None
+            itag, iv = _impl_load(cb, e)
+            res = None
+            if itag == "ok":
+                res = (np.array(iv[0], dtype=float, copy=True), np.array(iv[1], dtype=float, copy=True), iv[0].dtype, iv[1].dtype,
+                       iv[0].ndim, iv[1].ndim, type(iv[0]), type(iv[1]))
+                # the caller edits what it was given: must not leak into any later load
+                for arr in iv:
+                    if isinstance(arr, np.ndarray) and arr.flags.writeable:
+                        arr[...] = -7.0
+            hist.append((e, cold, itag, res, _cache_flag(cb, raw_float)))
+    finally:
+        cb._ATOMIC_GAUSS_PARAMS_CACHE = saved
+    lines, idx = [], []
+    for k, (e, cold, _, _, _) in enumerate(hist):
+        ln = _load_line(e, cold)
+        if ln is not None:
+            idx.append(k)
+            lines.append(ln)
+    answers = dict(zip(idx, driver_batch(lines)))
+    for k, (e, cold, itag, res, flag) in enumerate(hist):
+        label = type(e).__name__
+        is_key = isinstance(e, str) and e in raw
+        ctx.count(["load", label, repr(e), cold], nontrivial=(not is_key) or cold, tag=f"load:{label}:{'cold' if cold else 'warm'}:{itag}")
+        w = {"element": repr(e), "element_py": _py_expr(e), "type": label, "cache_before": "None" if cold else "filled", "position_in_history": k}
+        # stateless reference: the JSON file and grid.utils
+        exp = _expected_load(e, utils, raw_float)
+        if exp[0] != itag:
+            ctx.fail("corr", "load_atomic_gaussian_params:vs-file", f"load_atomic_gaussian_params({e!r}) [{label}] (call {k} of a history, cache "
+                     f"{'empty' if cold else 'filled'} before): {itag}, the file and grid.utils say {exp[0]}", witness=w)
+        elif itag == "ok":
+            good = np.array_equal(res[0], exp[1]) and np.array_equal(res[1], exp[2]) \
+                and res[2] == np.float64 and res[3] == np.float64 and res[4] == 1 and res[5] == 1 and res[6] is np.ndarray and res[7] is np.ndarray
+            if not good:
+                ctx.fail("corr", "load_atomic_gaussian_params:vs-file", f"load_atomic_gaussian_params({e!r}) (call {k} of a history, cache "
+                         f"{'empty' if cold else 'filled'} before): returned arrays are not (coeffs_s, alphas_s) of the file entry", witness=w)
+        if k not in answers:
             continue
-        if itag == "ok":
+        t = Tokens(answers[k])
+        mtag = t.tok()
+        if mtag == "ok":
             mc, ma = t.fvec(), t.fvec()
-            if len(mc) != len(iv[0]) or len(ma) != len(iv[1]) or \
-                    not all(close(float(a), b, rtol=4e-16) for a, b in zip(iv[0], mc)) or \
-                    not all(close(float(a), b, rtol=4e-16) for a, b in zip(iv[1], ma)):
-                ctx.fail("corr", "load_atomic_gaussian_params", f"load_atomic_gaussian_params({v!r}): arrays differ from the generated table",
-                         witness={"element": v})
-    # malformed stream: wrong types
-    for bad in (1.0, None, [1], (1,), b"H", 1 + 0j):
-        itag, _ = _impl_load(cb, bad)
-        ctx.count(["load", "type", repr(bad)], nontrivial=False, tag="load:malformed")
-        if itag != "type-error":
-            ctx.fail("corr", "load_atomic_gaussian_params:malformed", f"element={bad!r} answered {itag}, expected TypeError")
-    # NumPy integers take the integer path
-    for z in (np.int64(8), np.int32(17), np.uint8(1)):
-        a = _impl_load(cb, z)
-        b = _impl_load(cb, int(z))
-        ctx.count(["load", "npint", int(z)], nontrivial=False, tag="load:npint")
-        if a[0] != b[0] or (a[0] == "ok" and not (np.array_equal(a[1][0], b[1][0]) and np.array_equal(a[1][1], b[1][1]))):
-            ctx.fail("corr", "load_atomic_gaussian_params:npint", f"NumPy integer {z!r} loads differently from int")
+        mflag = int(t.tok()) if not t.done() else None
+        if itag != mtag:
+            ctx.fail("corr", "load_atomic_gaussian_params", f"load_atomic_gaussian_params({e!r}) [{label}], cache {'empty' if cold else 'filled'} "
+                     f"before: implementation {itag}, generated model {mtag}", witness=w)
+            continue
+        if flag != mflag:
+            ctx.fail("corr", "load_atomic_gaussian_params:cache", f"load_atomic_gaussian_params({e!r}) [{label}], cache {'empty' if cold else 'filled'} "
+                     f"before: module cache afterwards is {['None', 'the file', 'something else'][flag]}, generated model says "
+                     f"{['None', 'the file', 'something else'][mflag] if mflag is not None else '?'}", witness=w)
+        if itag == "ok":
+            if len(mc) != len(res[0]) or len(ma) != len(res[1]) or \
+                    not all(close(float(a), b, rtol=4e-16) for a, b in zip(res[0], mc)) or \
+                    not all(close(float(a), b, rtol=4e-16) for a, b in zip(res[1], ma)):
+                ctx.fail("corr", "load_atomic_gaussian_params", f"load_atomic_gaussian_params({e!r}): arrays differ from the generated loader on the generated table",
+                         witness=w)
+    # non-ASCII text is outside the model: pinned on the Python side (never an element)
+    for bad in ("ö", "ß", "ǅ", "ﬁ", "１", "Ｈ", "н", "H​", " H ", " C"):
+        itag, iv = _impl_load(cb, bad)
+        want = "ok" if bad.strip().title() in raw else "value-error"
+        ctx.count(["load", "non-ascii", bad], nontrivial=False, tag="load:non-ascii")
+        if itag != want:
+            ctx.fail("corr", "load_atomic_gaussian_params:non-ascii", f"element={bad!r} answered {itag}, expected {want}")
 
 
 # ----------------------------------------------------------------------------
@@ -480,44 +888,278 @@ for z, sym in num2sym.items():
 """
 
 
+SNIPPET_MULTI = """import warnings; warnings.filterwarnings('ignore')
+import numpy as np
+from grid.coulomb import coulomb_potential, coulomb_gaussian_s, coulomb_gaussian_p
+conv = {conv}
+args = {args!r}
+normalized = {normalized!r}
+shp = lambda k, x: x.reshape(-1, 3) if k in ('points', 'centers_s', 'centers_p') else x.reshape(-1)
+A = {{k: (None if v is None else conv(k, shp(k, np.array(v, dtype=float)))) for k, v in args.items()}}
+P = np.array(args['points'], dtype=float).reshape(-1, 3)
+want = np.zeros(len(P))
+for kind, f in (('s', coulomb_gaussian_s), ('p', coulomb_gaussian_p)):
+    if args.get('coeffs_' + kind) is None:
+        continue
+    for c, a, ctr in zip(args['coeffs_' + kind], args['alphas_' + kind], args['centers_' + kind]):
+        r = np.sqrt(((P - np.array(ctr, dtype=float)) ** 2).sum(axis=1))
+        want = want + c * f(r, a, normalized=normalized)            # coefficient-weighted sum of the single-centre functions
+got = coulomb_potential(**A, normalized=normalized)
+again = coulomb_potential(**A, normalized=normalized)
+scale = 1 + np.abs(want)
+assert got.shape == (len(P),) and np.all(np.abs(got - want) <= 1e-9 * scale * (1 + sum(len(args[k]) for k in args if k.startswith('coeffs') and args[k] is not None))), f'coulomb_potential = {{got.tolist()}}, coefficient-weighted sum of the single-centre functions = {{want.tolist()}}'
+assert np.array_equal(got, again), 'second call with the same arguments differs'
+"""
+CONVS = {
+    "f64": "lambda k, x: x",
+    "f32": "lambda k, x: x.astype(np.float32)",
+    "list": "lambda k, x: x.tolist() if len(x) else x",   # an empty list cannot carry the shape (0, 3)
+    "fortran-strided": "lambda k, x: np.asfortranarray(np.repeat(x, 2, axis=0))[::2]",
+}
+
+
+def _check_pot_property(ctx: Ctx, cb, args, normalized, where, mp_check=False):
+    """The property clause 'the multi-centre routine is the coefficient-weighted sum of these over all s and p
+    functions' at one input, with the arguments handed over in several container kinds. `args`: float lists / None."""
+    P = np.array(args["points"], dtype=float).reshape(-1, 3)
+    found = False
+    for cname, csrc in CONVS.items():
+        conv = eval(csrc)  # noqa: S307 - our own constant table
+        vals = {k: (None if v is None else (np.array(v, dtype=float).reshape(-1, 3) if k in ("points", "centers_s", "centers_p")
+                                             else np.array(v, dtype=float).reshape(-1))) for k, v in args.items()}
+        if cname == "f32":  # the reference is evaluated on the values the implementation receives
+            vals = {k: (None if v is None else v.astype(np.float32).astype(float)) for k, v in vals.items()}
+            Pv = vals["points"].reshape(-1, 3)
+        else:
+            Pv = P
+        want = np.zeros(len(Pv))
+        nf = 1
+        A = {k: (None if v is None else conv(k, v)) for k, v in vals.items()}
+        with np.errstate(all="ignore"):
+            try:
+                for kind, f in (("s", cb.coulomb_gaussian_s), ("p", cb.coulomb_gaussian_p)):
+                    if vals.get("coeffs_" + kind) is None:
+                        continue
+                    for c, a, ctr in zip(vals["coeffs_" + kind], vals["alphas_" + kind], vals["centers_" + kind]):
+                        nf += 1
+                        want = want + c * f(np.sqrt(((Pv - ctr) ** 2).sum(axis=1)), a, normalized=normalized)
+            except ValueError:
+                continue  # an exponent <= 0: not an instance of the clause
+            try:
+                got = cb.coulomb_potential(**A, normalized=normalized)
+                again = cb.coulomb_potential(**A, normalized=normalized)
+            except Exception as e:  # noqa: BLE001
+                found = True
+                ctx.fail("oracle", "coulomb.coulomb_potential",
+                         f"coulomb_potential ({where}; arguments as {cname}) raised {type(e).__name__}: {e} on well-shaped arguments with positive exponents; "
+                         f"the coefficient-weighted sum of the single-centre functions is {want.tolist()}",
+                         witness={"args": {k: (None if v is None else np.asarray(v).tolist()) for k, v in vals.items()}, "normalized": normalized, "container": cname},
+                         snippet=SNIPPET_MULTI.format(conv=csrc, args={k: (None if v is None else np.asarray(v).tolist()) for k, v in vals.items()},
+                                                      normalized=normalized))
+                break
+        bad = got.shape != (len(Pv),) or bool(np.any(np.abs(got - want) > 1e-9 * (1 + np.abs(want)) * nf)) or not np.array_equal(got, again)
+        if bad:
+            found = True
+            ctx.fail("oracle", "coulomb.coulomb_potential",
+                     f"coulomb_potential ({where}; arguments as {cname}) = {np.asarray(got).tolist()}, but the coefficient-weighted sum of the "
+                     f"single-centre functions over all s and p functions is {want.tolist()}" + ("" if np.array_equal(got, again) else " (and a second call differs)"),
+                     witness={"args": {k: (None if v is None else np.asarray(v).tolist()) for k, v in vals.items()}, "normalized": normalized, "container": cname},
+                     snippet=SNIPPET_MULTI.format(conv=csrc, args={k: (None if v is None else np.asarray(v).tolist()) for k, v in vals.items()},
+                                                  normalized=normalized))
+            break
+    if mp_check and not found and args.get("coeffs_p") is None and len(args["coeffs_s"]):
+        co, al, cs = args["coeffs_s"], args["alphas_s"], args["centers_s"]
+        with np.errstate(all="ignore"):
+            try:
+                got = cb.coulomb_potential(P, np.array(cs, float).reshape(-1, 3), np.array(co, float), np.array(al, float), normalized=normalized)
+            except ValueError:
+                return found
+        mp = _mp()
+        refv = [sum(c * _ref_potential("s", a, float(np.linalg.norm(p - np.array(ctr))), normalized) for c, a, ctr in zip(co, al, cs)) for p in P]
+        mag = [sum(abs(c) * abs(_ref_potential("s", a, float(np.linalg.norm(p - np.array(ctr))), normalized)) for c, a, ctr in zip(co, al, cs)) for p in P]
+        if any(abs(g - rv) > 1e-9 * (m + mp.mpf(10) ** -300) for g, rv, m in zip(got, refv, mag)):
+            found = True
+            ctx.fail("oracle", "coulomb.coulomb_potential", f"coulomb_potential (s functions only; {where}) differs from the sum of the Coulomb integrals of the documented densities: "
+                     f"{got.tolist()} vs {[mp.nstr(x, 15) for x in refv]}",
+                     witness={"args": args, "normalized": normalized})
+    return found
+
+
+SNIPPET_LOAD_ONE = """import warnings; warnings.filterwarnings('ignore')
+import json, numpy as np
+from importlib.resources import files
+import grid.coulomb as cb
+from grid.utils import num2sym, sym2num
+raw = json.load(open(files('grid.data').joinpath('atomic_gauss_params.json')))
+history = {history}      # (element, force the module cache to None before the call?)
+for e, cold in history:
+    if cold:
+        cb._ATOMIC_GAUSS_PARAMS_CACHE = None
+    if isinstance(e, str):
+        sym = e.strip().title(); sym = sym if sym in sym2num else None; want = 'ValueError'
+    elif isinstance(e, (int, np.integer)):
+        sym = num2sym.get(int(e)); want = 'ValueError'
+    else:
+        sym = None; want = 'TypeError'
+    try:
+        c, a = cb.load_atomic_gaussian_params(e); got = 'ok'
+    except (ValueError, TypeError) as ex:
+        got = type(ex).__name__
+    if sym in raw:
+        assert got == 'ok', f'{{e!r}}: {{got}}, the file has parameters for {{sym}}'
+        assert isinstance(c, np.ndarray) and isinstance(a, np.ndarray) and c.shape == a.shape == (len(raw[sym]['alphas_s']),) and np.all(a > 0), f'{{e!r}}: not matching arrays of positive exponents'
+        assert np.array_equal(c, np.array(raw[sym]['coeffs_s'], float)) and np.array_equal(a, np.array(raw[sym]['alphas_s'], float)), f'{{e!r}}: arrays differ from the file entry {{sym}} (coeffs_s, alphas_s)'
+        c[...] = -7.0; a[...] = -7.0      # the caller may do what it likes with its arrays
+    else:
+        assert got == want, f'{{e!r}}: {{got}}, expected {{want}}'
+"""
+
+
+def _fails_fresh(snippet: str) -> bool:
+    """Does the snippet raise in a fresh interpreter importing the same tree?"""
+    import subprocess
+    import sys
+    pre = f"import sys; sys.path.insert(0, {str(SRC.parent)!r})\n"
+    try:
+        return subprocess.run([sys.executable, "-c", pre + snippet], capture_output=True, timeout=120, cwd="/").returncode != 0
+    except Exception:  # noqa: BLE001
+        return False
+
+
+def _check_load_history(ctx: Ctx, cb, utils, raw_float, history, where):
+    """The property clause 'every shipped per-element parameter set loads as matching arrays of positive exponents'
+    (and unknown / ill-typed elements are rejected) along a history of calls. history: [(element, cold?)]."""
+    saved = cb._ATOMIC_GAUSS_PARAMS_CACHE
+    try:
+        for k, (e, cold) in enumerate(history):
+            if cold:
+                cb._ATOMIC_GAUSS_PARAMS_CACHE = None
+            exp = _expected_load(e, utils, raw_float)
+            tag, arrs = _impl_load(cb, e)
+            ok = tag == exp[0]
+            if ok and tag == "ok":
+                c, a = arrs
+                ok = isinstance(c, np.ndarray) and isinstance(a, np.ndarray) and c.ndim == 1 and c.shape == a.shape and len(a) > 0 \
+                    and bool(np.all(a > 0)) and np.array_equal(c, exp[1]) and np.array_equal(a, exp[2])
+                for arr in arrs:
+                    if isinstance(arr, np.ndarray) and arr.flags.writeable:
+                        arr[...] = -7.0
+            if not ok:
+                sym = e.strip().title() if isinstance(e, str) else (utils.num2sym.get(int(e)) if isinstance(e, (int, np.integer)) else None)
+                key = f"data:atomic_gauss_params:{sym}" if (sym in raw_float and tag != "ok" and k == 0) else \
+                    "coulomb.load_atomic_gaussian_params:" + ("history" if k > 0 else exp[0] if exp[0] != "ok" else "arrays")
+                # a self-contained history that fails in a fresh interpreter (the state of this process may
+                # have been shaped by earlier calls): tried in this order, the first that fails is the replay
+                cands = [history[:k + 1], [(e, True), (e, False), (e, False)], [(e, False)]]
+                hist_src = None
+                for cand in cands:
+                    if any(_py_expr(x) is None for x, _ in cand):
+                        continue
+                    src = "[" + ", ".join(f"({_py_expr(x)}, {c_})" for x, c_ in cand) + "]"
+                    hist_src = hist_src or src
+                    if _fails_fresh(SNIPPET_LOAD_ONE.format(history=src)):
+                        hist_src = src
+                        break
+                ctx.fail("oracle", key,
+                         f"load_atomic_gaussian_params({e!r}) ({where}; call {k + 1} of the history {[repr(x) for x, _ in history[:k + 1]][-6:]}, module cache "
+                         f"{'forced to None' if cold else 'as left by the previous call'}): {tag}"
+                         + (" with arrays that are not the (coeffs_s, alphas_s) of the file entry / not matching arrays of positive exponents" if tag == exp[0] else f", expected {exp[0]}")
+                         + f"; self-contained history: {hist_src}",
+                         witness={"element": repr(e), "history": [[repr(x), c_] for x, c_ in history[:k + 1]], "replay_history": hist_src},
+                         snippet=SNIPPET_LOAD_ONE.format(history=hist_src or "[]"))
+                return True
+    finally:
+        cb._ATOMIC_GAUSS_PARAMS_CACHE = saved
+    return False
+
+
 def oracle_at(ctx: Ctx, failure):
     """Evaluate the property at an input on which model and implementation disagreed."""
     w = failure.witness or {}
-    if not (isinstance(w, dict) and {"r", "alpha", "normalized"} <= set(w)) or not failure.key.startswith("coulomb_gaussian_"):
+    if not isinstance(w, dict):
+        return
+    cb = importlib.import_module("grid.coulomb")
+    if failure.key.startswith("coulomb_potential") and "points" in w:
+        args = {n: w.get(n) for n in POT_NAMES}
+        if any(isinstance(v, str) for v in args.values()) or args["points"] is None:
+            return
+        try:
+            ok_shapes = np.array(args["points"], float).ndim == 2 and np.array(args["centers_s"], float).ndim == 2
+        except ValueError:
+            return
+        if ok_shapes:
+            _check_pot_property(ctx, cb, args, bool(w.get("normalized", True)), "input on which the model and the implementation disagree", mp_check=True)
+        return
+    if failure.key.startswith("load_atomic_gaussian_params") and w.get("element_py"):
+        utils = importlib.import_module("grid.utils")
+        raw_float = {k: {kk: [float(x) for x in vv] for kk, vv in v.items()} for k, v in _json_tables().items()}
+        e = eval(w["element_py"], {"np": np})  # noqa: S307 - produced by _py_expr
+        for hist in ([(e, w.get("cache_before") == "None")], [(e, True), (e, False)], [("H", True), (e, False), ("h", False), (e, False)]):
+            if _check_load_history(ctx, cb, utils, raw_float, hist, "input on which the model and the implementation disagree"):
+                break
+        return
+    if not ({"r", "alpha", "normalized"} <= set(w)) or not failure.key.startswith("coulomb_gaussian_"):
         return
     kind = failure.key.split("_")[2][:1]
     if kind not in ("s", "p"):
         return
-    cb = importlib.import_module("grid.coulomb")
     mp = _mp()
+    if isinstance(w["r"], list):
+        return
     r, a, nz = float(w["r"]), float(w["alpha"]), bool(w["normalized"])
     fn = {"s": cb.coulomb_gaussian_s, "p": cb.coulomb_gaussian_p}[kind]
-    with np.errstate(all="ignore"):
-        got = float(fn(r, a, normalized=nz)[0])
+    # the value as the property sees it: through every route / container the disagreement may depend on
+    routes = [("float", lambda: fn(r, a, normalized=nz)), ("positional", lambda: fn(r, a, nz)), ("list", lambda: fn([r], a, normalized=nz)),
+              ("2-D array", lambda: fn(np.array([[r]]), a, normalized=nz)), ("int alpha", (lambda: fn(r, int(a), normalized=nz)) if a == int(a) else None),
+              ("np.float64", lambda: fn(np.float64(r), np.float64(a), normalized=nz))]
+    if nz:
+        routes.append(("default normalized", lambda: fn(r, a)))
+    if float(np.float32(r)) == r:
+        routes.append(("float32 array", lambda: fn(np.array([r], dtype=np.float32), a, normalized=nz)))
+    if r == int(r) and abs(r) < 2**53:
+        routes.append(("int", lambda: fn(int(r), a, normalized=nz)))
+    got, via = None, None
+    A, R = mp.mpf(a), mp.mpf(r)
     if kind == "s":
         ref = _ref_potential("s", a, r, nz)
-        if abs(got - ref) > 1e-10 * abs(ref):
-            ctx.fail("oracle", "coulomb.coulomb_gaussian_s",
-                     f"coulomb_gaussian_s(r={r!r}, alpha={a!r}, normalized={nz}) = {got!r}, but the Coulomb potential of the documented density is {mp.nstr(ref, 17)}",
-                     witness={"r": r, "alpha": a, "normalized": nz, "got": got, "reference": mp.nstr(ref, 20)},
-                     snippet=SNIPPET_POT.format(kind="s", alpha=a, r=r, normalized=nz))
     else:
         # the p-type function is a listed finding (wrong constants); a deviation from the formula its
         # own docstring states is a different defect and is reported under its own key
-        A, R = mp.mpf(a), mp.mpf(r)
-        doc = (mp.erf(mp.sqrt(A) * R) / R if r > 0 else 2 * mp.sqrt(A / mp.pi)) + mp.mpf(4) / 3 * mp.sqrt(A / mp.pi) * mp.exp(-A * R * R)
+        ref = (mp.erf(mp.sqrt(A) * R) / R if r > 0 else 2 * mp.sqrt(A / mp.pi)) + mp.mpf(4) / 3 * mp.sqrt(A / mp.pi) * mp.exp(-A * R * R)
         if not nz:
-            doc *= mp.mpf(3) / 2 * mp.pi ** mp.mpf("1.5") / A ** mp.mpf("2.5")
-        if abs(got - doc) > 1e-10 * abs(doc):
-            ctx.fail("oracle", "coulomb.coulomb_gaussian_p:vs-documented-formula",
-                     f"coulomb_gaussian_p(r={r!r}, alpha={a!r}, normalized={nz}) = {got!r} deviates from the formula stated in its own docstring, {mp.nstr(doc, 17)} "
-                     "(beyond the listed finding about that formula's constants)",
-                     witness={"r": r, "alpha": a, "normalized": nz, "got": got, "documented_formula": mp.nstr(doc, 20)},
-                     snippet=("import mpmath as mp, numpy as np\nfrom grid.coulomb import coulomb_gaussian_p as f\nmp.mp.dps = 40\n"
-                              f"a, r, nz = {a!r}, {r!r}, {nz}\nA, R = mp.mpf(a), mp.mpf(r)\n"
-                              "doc = (mp.erf(mp.sqrt(A)*R)/R if r > 0 else 2*mp.sqrt(A/mp.pi)) + mp.mpf(4)/3*mp.sqrt(A/mp.pi)*mp.exp(-A*R*R)\n"
-                              "doc = doc if nz else doc*mp.mpf(3)/2*mp.pi**mp.mpf('1.5')/A**mp.mpf('2.5')\n"
-                              "got = float(f(r, a, normalized=nz)[0])\nassert abs(got - doc) <= 1e-10*abs(doc), (got, doc)\n"))
+            ref *= mp.mpf(3) / 2 * mp.pi ** mp.mpf("1.5") / A ** mp.mpf("2.5")
+    for name, call in routes:
+        if call is None:
+            continue
+        with np.errstate(all="ignore"):
+            try:
+                g = float(np.asarray(call()).reshape(-1)[0])
+            except Exception:  # noqa: BLE001
+                continue
+        if abs(g - ref) > 1e-10 * abs(ref):
+            got, via = g, name
+            break
+    if got is None:
+        return
+    call_src = {"float": "f(r, a, normalized=nz)", "positional": "f(r, a, nz)", "list": "f([r], a, normalized=nz)", "2-D array": "f(np.array([[r]]), a, normalized=nz)",
+                "int alpha": "f(r, int(a), normalized=nz)", "np.float64": "f(np.float64(r), np.float64(a), normalized=nz)", "default normalized": "f(r, a)",
+                "float32 array": "f(np.array([r], dtype=np.float32), a, normalized=nz)", "int": "f(int(r), a, normalized=nz)"}[via]
+    if kind == "s":
+        ctx.fail("oracle", "coulomb.coulomb_gaussian_s",
+                 f"coulomb_gaussian_s(r={r!r}, alpha={a!r}, normalized={nz}) [argument as {via}] = {got!r}, but the Coulomb potential of the documented density is {mp.nstr(ref, 17)}",
+                 witness={"r": r, "alpha": a, "normalized": nz, "got": got, "reference": mp.nstr(ref, 20), "route": via},
+                 snippet=SNIPPET_POT.format(kind="s", alpha=a, r=r, normalized=nz).replace("got = float(f(r, alpha, normalized=normalized)[0])",
+                                                                                             "import numpy as np; a, nz = alpha, normalized\ngot = float(np.asarray(" + call_src + ").reshape(-1)[0])"))
+    else:
+        ctx.fail("oracle", "coulomb.coulomb_gaussian_p:vs-documented-formula",
+                 f"coulomb_gaussian_p(r={r!r}, alpha={a!r}, normalized={nz}) [argument as {via}] = {got!r} deviates from the formula stated in its own docstring, {mp.nstr(ref, 17)} "
+                 "(beyond the listed finding about that formula's constants)",
+                 witness={"r": r, "alpha": a, "normalized": nz, "got": got, "documented_formula": mp.nstr(ref, 20), "route": via},
+                 snippet=("import mpmath as mp, numpy as np\nfrom grid.coulomb import coulomb_gaussian_p as f\nmp.mp.dps = 40\n"
+                          f"a, r, nz = {a!r}, {r!r}, {nz}\nA, R = mp.mpf(a), mp.mpf(r)\n"
+                          "doc = (mp.erf(mp.sqrt(A)*R)/R if r > 0 else 2*mp.sqrt(A/mp.pi)) + mp.mpf(4)/3*mp.sqrt(A/mp.pi)*mp.exp(-A*R*R)\n"
+                          "doc = doc if nz else doc*mp.mpf(3)/2*mp.pi**mp.mpf('1.5')/A**mp.mpf('2.5')\n"
+                          f"got = float(np.asarray({call_src}).reshape(-1)[0])\nassert abs(got - doc) <= 1e-10*abs(doc), (got, doc)\n"))
 
 
 def oracle(ctx: Ctx, budget: str):
@@ -611,68 +1253,59 @@ def oracle(ctx: Ctx, budget: str):
             except ValueError:
                 pass
 
-    # (e) multi-centre = weighted sum of the single-centre functions (and, s-only, of the mpmath potentials)
+    # (e) multi-centre = weighted sum of the single-centre functions (and, s-only, of the mpmath potentials),
+    #     arguments handed over as float64 / float32 / lists / strided Fortran arrays, every call twice
     for i in range(40 if large else 6):
         ks, kp = ctx.rng.randrange(0, 4), ctx.rng.choice([None, 0, 1, 3])
         cs, co, al = _rand_gaussians(ctx, ks)
-        P = np.array([[ctx.rng.uniform(-3, 3) for _ in range(3)] for _ in range(3)] + ([cs[0]] if ks else []))
-        kw = {}
-        nz = ctx.rng.random() < 0.5
-        want = np.zeros(len(P))
-        with np.errstate(all="ignore"):
-            for c, a, ctr in zip(co, al, cs):
-                want = want + c * cb.coulomb_gaussian_s(np.sqrt(((P - np.array(ctr)) ** 2).sum(axis=1)), a, normalized=nz)
-            if kp is not None:
-                cp, cop, alp = _rand_gaussians(ctx, kp)
-                kw = dict(centers_p=np.array(cp).reshape(-1, 3), coeffs_p=np.array(cop), alphas_p=np.array(alp))
-                for c, a, ctr in zip(cop, alp, cp):
-                    want = want + c * cb.coulomb_gaussian_p(np.sqrt(((P - np.array(ctr)) ** 2).sum(axis=1)), a, normalized=nz)
-            got = cb.coulomb_potential(P, np.array(cs).reshape(-1, 3), np.array(co), np.array(al), normalized=nz, **kw)
-        sc = max(1.0, float(np.max(np.abs(want)))) if len(want) else 1.0
-        if got.shape != (len(P),) or np.max(np.abs(got - want), initial=0.0) > 1e-10 * sc * (ks + (kp or 0) + 1):
-            ctx.fail("oracle", "coulomb.coulomb_potential", f"coulomb_potential differs from the coefficient-weighted sum of the closed forms: {got.tolist()} vs {want.tolist()}",
-                     witness={"points": P.tolist(), "s": [cs, co, al], "normalized": nz})
-        if kp is None and ks and i < 3:
-            refv = [sum(c * _ref_potential("s", a, float(np.linalg.norm(p - np.array(ctr))), nz) for c, a, ctr in zip(co, al, cs)) for p in P]
-            mag = [sum(abs(c) * abs(_ref_potential("s", a, float(np.linalg.norm(p - np.array(ctr))), nz)) for c, a, ctr in zip(co, al, cs)) for p in P]
-            if any(abs(g - rv) > 1e-9 * (m + mp.mpf(10) ** -300) for g, rv, m in zip(got, refv, mag)):
-                ctx.fail("oracle", "coulomb.coulomb_potential", "coulomb_potential (s functions only) differs from the sum of the Coulomb integrals of the documented densities",
-                         witness={"points": P.tolist(), "s": [cs, co, al], "normalized": nz})
+        if i % 3 == 2:
+            al = [10.0 ** ctx.rng.uniform(6, 13) for _ in al]  # tight: the small-r switch is within reach of the points below
+        P = [[ctx.rng.uniform(-3, 3) for _ in range(3)] for _ in range(3)] + ([list(cs[0])] if ks else [])
+        if ks:
+            near = list(cs[-1]); near[ctx.rng.randrange(3)] += ctx.rng.choice([1, 2, 7, 50]) * thr; P.append(near)
+        args = dict(points=P, centers_s=np.array(cs, float).reshape(-1, 3).tolist(), coeffs_s=co, alphas_s=al, centers_p=None, coeffs_p=None, alphas_p=None)
+        if kp is not None:
+            cp, cop, alp = _rand_gaussians(ctx, kp)
+            args.update(centers_p=np.array(cp, float).reshape(-1, 3).tolist(), coeffs_p=cop, alphas_p=alp)
+        _check_pot_property(ctx, cb, args, ctx.rng.random() < 0.5, "generated centre/coefficient set", mp_check=(kp is None and ks and i < 3))
+    # the same array object for the s and the p parameters
+    cs, co, al = _rand_gaussians(ctx, 2)
+    C, Kc, A_ = np.array(cs), np.array(co), np.array(al)
+    Pn = np.array(cs + [[0.3, -0.2, 0.9]])
+    with np.errstate(all="ignore"):
+        want = sum(c * (cb.coulomb_gaussian_s(np.linalg.norm(Pn - ctr, axis=1), a) + cb.coulomb_gaussian_p(np.linalg.norm(Pn - ctr, axis=1), a))
+                   for c, a, ctr in zip(co, al, cs))
+        try:
+            got = cb.coulomb_potential(Pn, C, Kc, A_, C, Kc, A_)
+        except Exception as e:  # noqa: BLE001
+            got = None
+            ctx.fail("oracle", "coulomb.coulomb_potential", f"coulomb_potential with the same array objects for the s and p parameters raised {type(e).__name__}: {e}",
+                     witness={"centers": cs, "coeffs": co, "alphas": al})
+    if got is not None and np.max(np.abs(got - want)) > 1e-9 * (1 + np.max(np.abs(want))):
+        ctx.fail("oracle", "coulomb.coulomb_potential", "coulomb_potential with the same array objects for the s and p parameters differs from the weighted sum",
+                 witness={"centers": cs, "coeffs": co, "alphas": al})
 
-    # (f) the shipped table, every element symbol and number
+    # (f) the shipped table, every element symbol and number, as histories of calls (lazy cache: first call after the
+    #     module cache was emptied, warm calls, other elements in between, returned arrays overwritten by the caller)
     raw = _json_tables()
+    raw_float = {k: {kk: [float(x) for x in vv] for kk, vv in v.items()} for k, v in raw.items()}
     for sym in raw:
         if sym not in utils.sym2num:
             ctx.fail("oracle", f"data:atomic_gauss_params:{sym}", f"key {sym!r} of atomic_gauss_params.json is not an element symbol")
-    first = {}
+        ent = raw_float[sym]
+        if not (len(ent["coeffs_s"]) == len(ent["alphas_s"]) > 0 and all(a > 0 for a in ent["alphas_s"])):
+            ctx.fail("oracle", f"data:atomic_gauss_params:{sym}", f"entry {sym!r} of atomic_gauss_params.json: arrays do not match or an exponent is not positive")
     for z, sym in utils.num2sym.items():
-        for e in (sym, int(z), sym.lower(), f"  {sym.upper()} "):
-            tag, arrs = _impl_load(cb, e)
-            if sym in raw:
-                wc = np.array([float(x) for x in raw[sym]["coeffs_s"]])
-                wa = np.array([float(x) for x in raw[sym]["alphas_s"]])
-                ok = tag == "ok" and arrs[0].ndim == 1 and len(arrs[0]) == len(arrs[1]) > 0 and bool(np.all(arrs[1] > 0)) \
-                    and np.array_equal(arrs[0], wc) and np.array_equal(arrs[1], wa)
-                if not ok:
-                    ctx.fail("oracle", f"data:atomic_gauss_params:{sym}",
-                             f"load_atomic_gaussian_params({e!r}): {tag}; expected matching arrays of positive exponents equal to the file "
-                             f"({len(wc)} coefficients, {len(wa)} exponents, min exponent {wa.min() if len(wa) else None})",
-                             witness={"element": e}, snippet=SNIPPET_LOAD.format())
-                elif isinstance(e, str) and e == sym:
-                    first[sym] = (arrs[0].copy(), arrs[1].copy())
-                    arrs[0][:] = -1.0  # the caller's edit must not leak into later loads
-                    arrs[1][:] = -1.0
-                else:
-                    if sym in first and not (np.array_equal(first[sym][0], arrs[0]) and np.array_equal(first[sym][1], arrs[1])):
-                        ctx.fail("oracle", "coulomb.load_atomic_gaussian_params:idempotent",
-                                 f"load_atomic_gaussian_params({e!r}) after an earlier load of {sym!r} (whose result was edited) returns different arrays",
-                                 witness={"element": e})
-            elif tag != "value-error":
-                ctx.fail("oracle", "coulomb.load_atomic_gaussian_params:unknown",
-                         f"load_atomic_gaussian_params({e!r}): no parameters shipped for {sym}, answered {tag}", witness={"element": e},
-                         snippet=SNIPPET_LOAD.format())
-    for e in ("Xx", "", "H2", "Hydrogen", "h e", 0, -1, 119, 10**9):
-        tag, _ = _impl_load(cb, e)
-        if tag != "value-error":
-            ctx.fail("oracle", "coulomb.load_atomic_gaussian_params:unknown", f"load_atomic_gaussian_params({e!r}) answered {tag}, expected ValueError",
-                     witness={"element": e})
+        els = [sym, int(z), sym, int(z), sym.lower(), f"  {sym.upper()} ", np.int64(z)]
+        _check_load_history(ctx, cb, utils, raw_float, [(e, False) for e in els], "every element symbol / number, each twice")
+    stored = list(raw)
+    pool = stored + [s_.lower() for s_ in stored] + [int(utils.sym2num[s_]) for s_ in stored] + [np.int64(utils.sym2num[stored[0]]), np.uint8(utils.sym2num[stored[-1]]),
+                                                                                               True, "He", 2, "Xx", 0, 119, -1, 10**9, 2.0, None, " h ", "HE", "he"]
+    for _ in range(12 if large else 3):
+        hist = [(ctx.rng.choice(pool), ctx.rng.random() < 0.2) for _ in range(ctx.rng.randrange(4, 14))]
+        hist[0] = (hist[0][0], True)
+        _check_load_history(ctx, cb, utils, raw_float, hist, "history of calls")
+    for e in ("Xx", "", "H2", "Hydrogen", "h e", 0, -1, 119, 10**9, False, np.int64(0)):
+        _check_load_history(ctx, cb, utils, raw_float, [(e, False)], "non-elements")
+    for e in (2.0, 1.0, None, [1], b"H", np.float64(6.0)):
+        _check_load_history(ctx, cb, utils, raw_float, [(e, False)], "neither str nor int")
